@@ -118,6 +118,10 @@ class CascadeChecker:
                 except (ValidationFailure, InterestTimeout, InterestNack):
                     self.logger.debug('Public key not valid.')
                     return False
+                except (ValueError, TypeError):
+                    # The key locator is not a name an Interest can be expressed for
+                    self.logger.debug('Malformed key locator.')
+                    return False
                 self.logger.debug('Public key fetched.')
                 if key_bits:
                     self.storage.save(cert_name, key_bits)
